@@ -1601,119 +1601,6 @@ mod tv {
     }
 }
 
-// ---------------------------------------------------------------------------
-// TDD (ternary nodes): structures for the level-swap / reordering replay of C08.  Functions are
-// built from variables and constants by the three-valued operators; `T3EVAL` prints the value
-// table over all 3^n ternary assignments (digit v of the index in base 3: 0 = true, 1 = unknown,
-// 2 = false, i.e. the child index; value codes 0 = False, 1 = Unknown, 2 = True).
-// ---------------------------------------------------------------------------
-mod tv {
-    use super::*;
-    use oxidd::tdd::TDDFunction;
-    use oxidd::TVLFunction;
-    use oxidd_rules_tdd::TDDTerminal;
-
-    fn show(t: &TDDTerminal) -> String {
-        format!("{t:?}")
-    }
-
-    pub fn run_tdd(case: &Case, out: &mut dyn FnMut(String)) {
-        let cap = case.param_u64("cap", 1 << 16) as usize;
-        let cache = case.param_u64("cache", 1 << 12) as usize;
-        let threads = case.param_u64("threads", 1) as u32;
-        let snap_each = case.param("snap") == Some("each");
-        let mref = oxidd::tdd::new_manager(cap, cache, threads);
-        let mut core: Core<TDDFunction> = Core { mref, slots: BTreeMap::new() };
-        for line in &case.ops {
-            let tok: Vec<&str> = line.split_whitespace().collect();
-            let res: Result<String, String> = (|| {
-                if let Some(r) = core.exec(&tok) {
-                    return r;
-                }
-                match tok[0] {
-                    "T3CONST" => {
-                        let f = core.mref.with_manager_shared(|m| match tok[2] {
-                            "f" => TDDFunction::f(m),
-                            "u" => TDDFunction::u(m),
-                            _ => TDDFunction::t(m),
-                        });
-                        Ok(core.put(tok[1], f))
-                    }
-                    "T3VAR" => {
-                        let v: VarNo = tok[2].parse().unwrap();
-                        if v >= core.nvars() {
-                            return Err("skip".into());
-                        }
-                        let f = oom(core.mref.with_manager_shared(|m| TDDFunction::var(m, v)))?;
-                        Ok(core.put(tok[1], f))
-                    }
-                    "T3NOT" => {
-                        let r = oom(core.get(tok[2])?.not())?;
-                        Ok(core.put(tok[1], r))
-                    }
-                    "T3AND" | "T3OR" | "T3XOR" | "T3EQUIV" | "T3NAND" | "T3NOR" | "T3IMP" | "T3IMPS" => {
-                        let (a, b) = (core.get(tok[2])?, core.get(tok[3])?);
-                        let r = match tok[0] {
-                            "T3AND" => a.and(b),
-                            "T3OR" => a.or(b),
-                            "T3XOR" => a.xor(b),
-                            "T3EQUIV" => a.equiv(b),
-                            "T3NAND" => a.nand(b),
-                            "T3NOR" => a.nor(b),
-                            "T3IMP" => a.imp(b),
-                            _ => a.imp_strict(b),
-                        };
-                        let r = oom(r)?;
-                        Ok(core.put(tok[1], r))
-                    }
-                    "T3ITE" => {
-                        let r = oom(core.get(tok[2])?.ite(core.get(tok[3])?, core.get(tok[4])?))?;
-                        Ok(core.put(tok[1], r))
-                    }
-                    "T3EVAL" => {
-                        let n = core.nvars();
-                        if n > 6 {
-                            return Ok("toolarge".into());
-                        }
-                        let f = core.get(tok[1])?;
-                        let mut s = format!("vt3 {n}");
-                        for a in 0..3u32.pow(n) {
-                            let v = f.eval((0..n).map(|v| {
-                                (v, match a / 3u32.pow(v) % 3 {
-                                    0 => Some(true),
-                                    1 => None,
-                                    _ => Some(false),
-                                })
-                            }));
-                            s.push(' ');
-                            s.push(match v {
-                                Some(false) => '0',
-                                None => '1',
-                                Some(true) => '2',
-                            });
-                        }
-                        Ok(s)
-                    }
-                    "DROPALL" => {
-                        core.slots.clear();
-                        Ok("ok".into())
-                    }
-                    "SNAP" => Ok(core.snapshot(&[], &|t: &TDDTerminal| show(t))),
-                    other => Err(format!("unknown-op-{other}")),
-                }
-            })();
-            let res = match res {
-                Ok(r) => r,
-                Err(e) => format!("err {e}"),
-            };
-            out(format!("{line} -> {res}"));
-            if snap_each && tok[0] != "SNAP" {
-                out(format!("SNAP -> {}", core.snapshot(&[], &|t: &TDDTerminal| show(t))));
-            }
-        }
-    }
-}
-
 fn main() {
     match mode().as_str() {
         "run" => {
@@ -1730,7 +1617,6 @@ fn main() {
                     "mtbdd" => mt::run_i64(case, out),
                     #[cfg(feature = "mtbdd")]
                     "mtbddf" => mt::run_f64(case, out),
-                    "tdd" => tv::run_tdd(case, out),
                     "tdd" => tv::run_tdd(case, out),
                     k => panic!("unknown kind {k}"),
                 }
